@@ -117,6 +117,10 @@ def blackbox_case(case):
     if case['storm']:
         for k, (kind, nth) in enumerate([('newOrder', 0), ('finalize', 0), ('authz', 0)]):
             rules.append({'kind': kind, 'cert_nth': 0, 'action': 'acme_error', 'type': 'badNonce', 'status': 400, 'tx_from': 0, 'tx_to': case['storm'], 'id': 'storm%d' % k})
+    if case.get('cuts'):
+        # requests the server received and then dropped without answering are requests all the same
+        for k, kind in enumerate(['newOrder', 'authz', 'finalize']):
+            rules.append({'kind': kind, 'cert_nth': 0, 'action': 'close_after_process' if k % 2 == 0 else 'close_before_process', 'id': 'cut%d' % k})
     plan = {'default': {'lifetimes_s': [90 * 86400], 'chain_lens': [1], 'authz_pending_polls': case['polls'], 'order_valid_polls': case['polls']},
             'faults': rules}
 
@@ -140,8 +144,8 @@ def blackbox_case(case):
             slack = max(0.1, 0.05 * p)
             for i in range(len(arr) - n):
                 if (arr[i + n] - arr[i]) / 1e9 < p - slack:
-                    pb.append(('arrivals', '%d requests reached the CA within %.3f s although the endpoint is limited to %d per %d s (%d certificates, retry storm %s)' % (
-                        n + 1, (arr[i + n] - arr[i]) / 1e9, n, p, n_certs, case['storm'])))
+                    pb.append(('arrivals', '%d requests reached the CA within %.3f s although the endpoint is limited to %d per %d s (%d certificates, retry storm %s, connection cuts %s)' % (
+                        n + 1, (arr[i + n] - arr[i]) / 1e9, n, p, n_certs, case['storm'], case.get('cuts'))))
                     break
         done = len([p for p in run.postops() if p['kv'].get('is_success') == 'true'])
         return run, arr, kinds, pb, done
@@ -174,7 +178,7 @@ def run(tier):
     bbs = []
     for i in range(4 if tier == 'quick' else 30):
         lim = r.choice([[(4, 2)], [(3, 1), (10, 5)], [(6, 3)], [(2, 1)], [(5, 2), (12, 6)]])
-        bbs.append({'i': i, 'n_certs': r.randint(2, 4), 'limits': lim, 'storm': r.choice([0, 3, 5]), 'polls': r.choice([0, 2]),
+        bbs.append({'i': i, 'n_certs': r.randint(2, 4), 'limits': lim, 'storm': r.choice([0, 3, 5]) if i % 2 else 0, 'cuts': i % 2 == 0, 'polls': r.choice([0, 2]),
                     'workers': r.choice([None, 1, 4]), 'timeout': 150})
     jobs = [('p', c) for c in pcs] + [('b', c) for c in bbs]
     results = C.parallel(jobs, lambda j: (j[0], probe_case(j[1]) if j[0] == 'p' else blackbox_case(j[1])), workers=14)
@@ -195,7 +199,7 @@ def run(tier):
             for k, v in (res.get('kinds') or {}).items():
                 chk.count('blackbox_kind_%s' % k, v)
             if res['arrivals']:
-                chk.distinct.add(('blackbox', tuple(c['limits']), c['n_certs'], c['storm'], c['polls']))
+                chk.distinct.add(('blackbox', tuple(c['limits']), c['n_certs'], c['storm'], c['polls'], c.get('cuts')))
         for cls, what in res['problems']:
             chk.violation('C09|%s|%s' % (part, cls), what + ' [limits %s]' % (c['limits'],), res, res.get('replay_dir'))
     chk.rule = ('probe: limit sets of 1-3 limits (n in 1..20, periods 1-5 s) x arrival shapes (burst, steady, 2-8 contending callers on one endpoint '
